@@ -64,7 +64,8 @@ class AquilaOptimization(OptimizationAbstract):
         phi = -w * dim_list + phi0
         x = r * np.sin(phi)  # Eq.(9)
         y = r * np.cos(phi)  # Eq.(10)
-        QF = current_cycle ** ((2 * np.random.random() - 1) / (1 - max_cycles) ** 2)  # Eq.(15)
+        # Eq.(15); the exponent's denominator (1 - T)^2 vanishes for a budget of a single cycle
+        QF = current_cycle ** ((2 * np.random.random() - 1) / max((1 - max_cycles) ** 2, 1))
 
         best_position = np.array(self._best_agent.position)
         pop_size = self._config.population_size
